@@ -70,7 +70,8 @@ func (h *harness) litSource(c *litCheck, src string) presult {
 		c.set(5, v2 == v, fmt.Sprintf("Run(%q) twice -> %s then %s", src, v, v2))
 		h.run("delete this.x; delete this.y")
 	} else {
-		a, b, e, note := h.runtimeFlags(src)
+		h.nlit++
+		a, b, e, note := h.runtimeFlagsN(src, h.nlit%4 == 0)
 		c.set(5, a, fmt.Sprintf("Run(%q) of a rejected source%s", src, note))
 		c.set(6, b && e, fmt.Sprintf("rejected %q has side effects%s", src, note))
 	}
